@@ -1,5 +1,6 @@
 From GV Require Import Common.Outcome C12.HeaderModel C12.Spec C12.Proofs.
 From GV Require Import C12.Conv C12.ConvSpec C12.ConvProofs.
+From GV Require Import C12.CtorWsSpec C12.CtorWsProofs.
 From GV Require C19.DiagSpec C19.DiagProofs.
 From GV Require C10.YpSpec C10.YpTotal C11.Spec C11.Proofs C11.TotalProofs.
 
@@ -162,6 +163,21 @@ Print Assumptions C12_span_labels_orig_panics_iff.
 Theorem C12_render_invalid_entry_refuted : render_invalid_entry_refuted_stmt.
 Proof. exact render_invalid_entry_refuted. Qed.
 Print Assumptions C12_render_invalid_entry_refuted.
+
+(* white space after the '(' of a constructor value of the section (/repo fdd053a; the flag
+   fixed_ctor_ws of the mirror): the pinned code rejects `Original( NoAction)`, the repaired
+   code gives the value of `Original(NoAction)` for EVERY run of white space there *)
+Theorem C12_header_ctor_ws_refuted : header_ctor_ws_refuted_stmt.
+Proof. exact header_ctor_ws_refuted. Qed.
+Print Assumptions C12_header_ctor_ws_refuted.
+
+Theorem C12_header_layout_insensitive_ctor : header_layout_insensitive_ctor_stmt.
+Proof. exact header_layout_insensitive_ctor. Qed.
+Print Assumptions C12_header_layout_insensitive_ctor.
+
+Theorem C12_header_layout_sensitive_ctor_pinned : header_layout_sensitive_ctor_pinned_stmt.
+Proof. exact header_layout_sensitive_ctor_pinned. Qed.
+Print Assumptions C12_header_layout_sensitive_ctor_pinned.
 
 (* the rows printed for each span (C19's mirror of format_spanned, which since
    87315cb is the path of BOTH span kinds): for any number of spans that are on
